@@ -255,6 +255,7 @@ impl RuntimeData {
         self.global_vars.clear();
         self.call_stack.clear();
         self.open_upvalues = std::ptr::null_mut();
+        self.memory.reset_next_gc();
     }
 
     fn clear_objects(&mut self) {
@@ -271,6 +272,7 @@ impl RuntimeData {
                 .limit
                 .store(capacity, std::sync::atomic::Ordering::Relaxed);
         }
+        self.memory.reset_next_gc();
     }
 
     /// Types implementing Drop are not supported, thus the `Copy` bound
